@@ -568,8 +568,9 @@ SSTRUCT_FIELDS = {
 
 class Sstruct(Unit):
     name = "sstruct"
-    rule = "sstruct: every ordered pair of field kinds (18 kinds incl. fixed-point 2.14F/16.16F/8.8F/0.16F) x byte order {>,<} x all boundary values per field: unpack(fmt, pack(fmt, obj)) == obj, len == calcsize(fmt) == struct.calcsize(getformat(fmt)); distinct = each (fmt, values)"
+    rule = "sstruct: every ordered pair of field kinds (18 kinds incl. fixed-point 2.14F/16.16F/8.8F/0.16F) x byte order {>,<} x all boundary values per field: unpack(fmt, pack(fmt, obj)) == obj, len == calcsize(fmt) == struct.calcsize(getformat(fmt)); the same with a pad byte (named / anonymous) between the two fields, each new format text first met by pack, by calcsize or by unpack; distinct = each (fmt, values)"
     chunk = 4
+    required_witnesses = ("fixed-point field", "pad byte, first use by pack", "pad byte, first use by unpack")
 
     def cases(self, tier, seed):
         kinds = sorted(SSTRUCT_FIELDS)
@@ -601,6 +602,33 @@ class Sstruct(Unit):
                     rec.violation("sstruct:roundtrip", "fmt=%r obj=%r got=%r" % (fmt, obj, got), case=case + [repr(va), repr(vb)])
                 if "F" in a or "F" in b:
                     rec.witness("fixed-point field")
+        # pad bytes between the fields (named and anonymous), each format text met for the first time by
+        # pack, by calcsize or by unpack (the parsed format is cached per text: a comment makes it new)
+        va, vb = SSTRUCT_FIELDS[a][-1], SSTRUCT_FIELDS[b][0]
+        obj = {"fa": va, "fb": vb}
+        for pad in ("gap: x", "x"):
+            for first in ("pack", "calcsize", "unpack"):
+                n += 1
+                fmt = "\n  %s # first use by %s\n  fa: %s\n  %s\n  fb: %s\n" % (order, first, a, pad, b)
+                plain = struct.pack(order + "x")
+                ref = sstruct.pack("\n  %s\n  fa: %s\n" % (order, a), {"fa": va}) + plain + sstruct.pack("\n  %s\n  fb: %s\n" % (order, b), {"fb": vb})
+                try:
+                    if first == "calcsize":
+                        sstruct.calcsize(fmt)
+                    elif first == "unpack":
+                        sstruct.unpack(fmt, ref)
+                    data = sstruct.pack(fmt, obj)
+                    got = sstruct.unpack(fmt, data)
+                    size = sstruct.calcsize(fmt)
+                except Exception as e:
+                    rec.violation("sstruct:pad:%s-first:%s" % (first, type(e).__name__), "fmt=%r obj=%r: %r" % (fmt, obj, e), case=case)
+                    continue
+                rec.witness("pad byte, first use by " + first)
+                for k, kind in (("fa", a), ("fb", b)):
+                    if kind in ("c", "4s") and isinstance(got.get(k), str):
+                        got[k] = got[k].encode("latin-1")
+                if data != ref or size != len(ref) or got != obj:
+                    rec.violation("sstruct:pad:%s-first:roundtrip" % first, "fmt=%r obj=%r data=%r expected=%r got=%r" % (fmt, obj, data, ref, got), case=case)
         rec.evals(n - 1)
         rec.nontrivial_n(n)
 
